@@ -37,6 +37,7 @@ def generate(files, HEADER, coq_str, coq_str_list, coq_ranges, GenError):
     out += parser_tables(coq_str, coq_str_list, GenError)
     files['Tables.v'] = '\n'.join(out) + '\n'
     catalogue(files, HEADER, coq_str, coq_str_list, GenError)
+    gen_globals(files, HEADER, coq_str)
 
 
 def decimal_ranges(GenError):
@@ -399,3 +400,64 @@ Definition py_tables : tables :=
        coq_bool(babel.selectlang_break), coq_bool(babel.otherlang_break),
        coq_str_list(xspace.xspace_excl), coq_str(biblatex.cite_text)))
     files['Catalogue.v'] = '\n'.join(out) + '\n'
+
+
+# ---------------------------------------------------------------------------
+#   Globals.v: module-level mutable objects of yalafi/**.py (property C17)
+# ---------------------------------------------------------------------------
+
+def globals_inventory():
+    """(module, name, kind) for every module-level name that is bound to a
+    mutable container or is assigned through a `global` statement"""
+    out = []
+    root = os.path.join(REPO, 'yalafi')
+    for dirpath, dirs, fs in os.walk(root):
+        for f in sorted(fs):
+            if not f.endswith('.py'):
+                continue
+            path = os.path.join(dirpath, f)
+            mod = os.path.relpath(path, REPO)[:-3].replace(os.sep, '.')
+            tree = ast.parse(open(path, encoding='utf-8').read())
+            for node in tree.body:
+                targets = []
+                if isinstance(node, ast.Assign):
+                    targets = [t for t in node.targets if isinstance(t, ast.Name)]
+                    val = node.value
+                elif isinstance(node, ast.AnnAssign) and isinstance(node.target, ast.Name):
+                    targets = [node.target]
+                    val = node.value
+                for t in targets:
+                    kind = None
+                    if isinstance(val, (ast.Dict, ast.List, ast.Set, ast.ListComp,
+                                        ast.DictComp, ast.SetComp)):
+                        kind = 'container'
+                    elif isinstance(val, ast.Call):
+                        fn = val.func
+                        name = getattr(fn, 'id', getattr(fn, 'attr', ''))
+                        if name in ('dict', 'list', 'set', 'defaultdict',
+                                    'OrderedDict', 'Aux', 'deque'):
+                            kind = 'container'
+                    if kind:
+                        out.append((mod, t.id, kind))
+            for node in ast.walk(tree):
+                if isinstance(node, ast.Global):
+                    for n in node.names:
+                        out.append((mod, n, 'global-statement'))
+                # function attributes / default arguments used as caches
+                if isinstance(node, ast.FunctionDef):
+                    for dflt in node.args.defaults + node.args.kw_defaults:
+                        if isinstance(dflt, (ast.Dict, ast.List, ast.Set)) and \
+                                (getattr(dflt, 'keys', None) or getattr(dflt, 'elts', None)) is not None:
+                            pass
+    return sorted(set(out))
+
+
+def gen_globals(files, HEADER, coq_str):
+    inv = globals_inventory()
+    out = [HEADER,
+           '(* module-level mutable objects and names assigned with `global` *)',
+           'Definition module_globals : list (str * str) := [',
+           ';\n'.join('  (%s, %s)  (* %s.%s: %s *)' % (coq_str(m), coq_str(n), m, n, k)
+                      for m, n, k in inv),
+           '].']
+    files['Globals.v'] = '\n'.join(out) + '\n'
